@@ -10,6 +10,7 @@ Every theorem is stated for ALL catalogs, requirement sets, candidate lists, sim
 values; `ridKey` is the provider's reservation-id label (any key other than the capacity-type key).
 -/
 import Karp.Proofs.Consolidate
+import Karp.Proofs.ConsolidateValidate
 import Karp.Proofs.ConsolidateSpec
 import Karp.Spec.Consolidation
 
@@ -72,13 +73,39 @@ theorem fact_same_type :
       ["len(compatibleOfferings) == 0", "p < existingPrice", "pricesByInstanceType[it.Name] < maxPrice"] ∧
     Karp.Gen.C06Facts.firstNCalls = ["computeConsolidation", "filterOutSameInstanceType"] := by decide
 
+/-- `validateCommand`: the comparisons and the essential calls in source order; after the all-scheduled and the
+    NodeClaim-count tests it rejects unless the command's instance types are a subset of the re-simulated ones AND the
+    command's replacement requirements are a subset of the re-simulated requirements — command first, re-simulation
+    second in both calls — and accepts otherwise -/
 theorem fact_validate_command :
     Karp.Gen.C06Facts.validateCommandCmps =
       ["len(candidates) == 0", "len(results.NewNodeClaims) == 0", "len(cmd.Replacements) == 0",
        "len(results.NewNodeClaims) > 1", "len(cmd.Replacements) == 0"] ∧
-    Karp.Gen.C06Facts.validateCommandCalls = ["SimulateScheduling", "AllNonPendingPodsScheduled", "instanceTypesAreSubset"] ∧
+    Karp.Gen.C06Facts.validateCommandCalls =
+      ["SimulateScheduling", "AllNonPendingPodsScheduled", "instanceTypesAreSubset", "requirementsAreSubset"] ∧
     Karp.Gen.C06Facts.subsetCmps = ["len(rhsNames.Intersection(lhsNames)) == len(lhsNames)"] ∧
     Karp.Gen.C06Facts.isValidCalls = ["After", "validateCommand"] := by decide
+
+theorem fact_validate_guards :
+    Karp.Gen.C06Facts.validateCommandGuards =
+      ["len(candidates) == 0 => return NewValidationError(…)",
+       "err != nil => return fmt.Errorf(…)",
+       "!results.AllNonPendingPodsScheduled() => return NewSchedulingValidationError(…)",
+       "len(results.NewNodeClaims) == 0 => return NewSchedulingValidationError(…)",
+       "len(cmd.Replacements) == 0 => return nil",
+       "len(results.NewNodeClaims) > 1 => return NewSchedulingValidationError(…)",
+       "len(cmd.Replacements) == 0 => return NewSchedulingValidationError(…)",
+       "!instanceTypesAreSubset(cmd.Replacements[0].InstanceTypeOptions, results.NewNodeClaims[0].InstanceTypeOptions) => return NewSchedulingValidationError(…)",
+       "!requirementsAreSubset(cmd.Replacements[0].Requirements, results.NewNodeClaims[0].Requirements) => return NewSchedulingValidationError(…)",
+       "end => return nil"] := rfl
+
+/-- `requirementsAreSubset(lhs, rhs)`: ranges over `rhs`, reads `lhs.Get(key)` (an undefined key is `Exists`) and
+    compares `Len` of the intersection with `Len` of the `lhs` requirement (the model's `reqsSubset`) -/
+theorem fact_requirements_subset :
+    Karp.Gen.C06Facts.reqSubsetSkeletonParams = ["lhs", "rhs"] ∧
+    Karp.Gen.C06Facts.reqSubsetSkeleton =
+      ["for key, r := range rhs", "l := lhs.Get(key)", "if l.Intersection(r).Len() != l.Len()", "return false", "return true"] ∧
+    Karp.Gen.C06Facts.reqSubsetCmps = ["l.Intersection(r).Len() != l.Len()"] := by decide
 
 /-- every method releases a command only after validation -/
 theorem fact_methods :
@@ -103,7 +130,7 @@ theorem fact_eviction_cost :
     Karp.Gen.C06Facts.evictionBase = 1 ∧ Karp.Gen.C06Facts.evictionDelExp = 27 ∧ Karp.Gen.C06Facts.evictionPrioExp = 25 ∧
     Karp.Gen.C06Facts.evictionClampLo = -10 ∧ Karp.Gen.C06Facts.evictionClampHi = 10 := by decide
 
-/-! ## A small catalog used by the non-vacuity examples and the recorded finding -/
+/-! ## A small catalog used by the non-vacuity examples and the validation witnesses -/
 
 def ofr (z ct : String) (p : Nat) (av : Bool := true) (rid : String := "") : Offering :=
   { zone := z, ct := ct, price := p, available := av, resID := rid }
@@ -288,40 +315,116 @@ theorem C06_multi_delete (ridKey : String) (gate : Bool) (cands : List Cand) (si
 /-! ## Validation -/
 
 /-- **C06_validate_subset** — validation accepts a command only if the re-simulation schedules every non-pending pod,
-    opens exactly as many NodeClaims as the command has replacements, and offers every instance type of the command's
-    replacement. -/
+    opens exactly as many NodeClaims as the command has replacements, offers every instance type of the command's
+    replacement, and passes `requirementsAreSubset` against the command's replacement requirements. -/
 theorem C06_validate_subset (re : Sim) :
-    (∀ names, validateCommand (some names) re = true →
-      re.allScheduled = true ∧ ∃ c, re.claims = [c] ∧ ∀ n ∈ names, n ∈ c.its.map (·.name)) ∧
+    (∀ R names, validateCommand (some (R, names)) re = true →
+      re.allScheduled = true ∧ ∃ c, re.claims = [c] ∧ (∀ n ∈ names, n ∈ c.its.map (·.name)) ∧ reqsSubset R c.reqs = true) ∧
     (validateCommand none re = true → re.allScheduled = true ∧ re.claims = []) :=
-  ⟨fun names h => validateCommand_replace names re h, validateCommand_delete re⟩
+  ⟨fun R names h => validateCommand_replace R names re h, validateCommand_delete re⟩
 
-/-! ### Recorded finding: validation does not look at requirements
+/-- **C06_validate_requirements** — the replacement that is released is still what the pods need: if validation accepts
+    a replace command, every instance type of the command is one the RE-SIMULATED NodeClaim offers and every launch the
+    command's replacement requirements permit (every offering — in particular every available offering of a listed
+    instance type) is a launch the re-simulated NodeClaim's requirements permit.  So whatever C01 guarantees for every launch
+    of the re-simulated claim (each pod placed on it has an admissible home there) holds for every launch of the
+    command's replacement.
 
-FULL statement the property needs of validation (the replacement that is released must still be what the pods need):
+    `lenExact` (decidable, `Karp/Proofs/ConsolidateValidate.lean`) names the conditions under which the size comparison
+    `l.Intersection(r).Len() == l.Len()` of `requirementsAreSubset` is exact on the three offering keys (zone, capacity
+    type, reservation id):
+    * no `Gt`/`Lt`/`Gte`/`Lte` bound on them in either requirement set — needed: `C06_len_test_inexact_for_bounds`;
+    * the value sets on them hold fewer than 2^63 - 1 values together (`Len` of a complement set is `MaxInt64 - |excluded|`;
+      a Go set cannot be that large);
+    * the re-simulated claim tolerates an absent reservation-id label, or is pinned to reserved capacity (as
+      `FinalizeScheduling` leaves it, `C06_reserved_pin`) — needed: `C06_len_test_ignores_absence`. -/
+theorem C06_validate_requirements (ridKey : String) (cmdReqs : Reqs) (names : List String) (re : Sim) (c : Claim)
+    (h : validateCommand (some (cmdReqs, names)) re = true) (hc : re.claims = [c])
+    (hex : lenExact ridKey cmdReqs c.reqs = true) :
+    (∀ n ∈ names, ∃ it ∈ c.its, it.name = n) ∧
+    (∀ o, offeringCompat ridKey cmdReqs o = true → offeringCompat ridKey c.reqs o = true) ∧
+    (∀ it ∈ c.its, it.name ∈ names → ∀ o ∈ it.offerings, o.available = true →
+      offeringCompat ridKey cmdReqs o = true → offeringCompat ridKey c.reqs o = true) := by
+  obtain ⟨_, c', hc', hn, hsub⟩ := validateCommand_replace cmdReqs names re h
+  have : c' = c := by rw [hc] at hc'; exact (List.cons.inj hc').1.symm
+  subst this
+  have hall : ∀ o, offeringCompat ridKey cmdReqs o = true → offeringCompat ridKey c'.reqs o = true :=
+    fun o ho => reqsSubset_offeringCompat ridKey cmdReqs c'.reqs hsub hex o ho
+  refine ⟨?_, hall, fun _ _ _ o _ _ ho => hall o ho⟩
+  intro n hn'
+  obtain ⟨it, hit, hname⟩ := List.mem_map.mp (hn n hn')
+  exact ⟨it, hit, hname⟩
 
-    validateCommand (some names) re = true → re.claims = [c] →
-      ∀ o, offeringCompat ridKey cmdReqs o = true → offeringCompat ridKey c.reqs o = true
+/-- the same in the specification's vocabulary: every launch the specification's `permits` allows the released
+    replacement, it allows the re-simulated NodeClaim -/
+theorem C06_validate_requirements_spec (ridKey : String) (cmdReqs : Reqs) (names : List String) (re : Sim) (c : Claim)
+    (h : validateCommand (some (cmdReqs, names)) re = true) (hc : re.claims = [c])
+    (hex : lenExact ridKey cmdReqs c.reqs = true) (o : Karp.Scn.Offering)
+    (ho : Karp.Spec.Consolidation.permits ridKey cmdReqs o = true) :
+    Karp.Spec.Consolidation.permits ridKey c.reqs o = true := by
+  rw [permits_eq] at ho ⊢
+  exact (C06_validate_requirements ridKey cmdReqs names re c h hc hex).2.1 _ ho
 
-i.e. every launch the command's replacement permits is one the RE-SIMULATED NodeClaim permits.  `validateCommand` does not
-even take the command's requirements as an input: it compares instance-type names only.  `C06_validate_subset` above is the
-part that holds (`…_partial` in the sense of the conventions); the witness below is the negation of the full statement,
-replayed on the real code by `corpus/c06.validate/001-…` (a zone-pinned pod that an existing node was going to take moves
-onto the replacement during the validation delay; the command is released with its zone-unrestricted replacement).
-Proposed repair: `fixes/C06-validate-replacement-requirements.patch` (validation also requires the command's replacement
-requirements to be at least as tight as the re-simulated ones); with it `validateCommand` gains that conjunct and the full
-statement becomes provable. -/
+/-! ### The witness of the repaired finding, and why the hypotheses of `C06_validate_requirements` are needed
+
+`C06-validation-stale-replacement-requirements` (repaired by `fix: consolidation validation released a replacement whose
+requirements had gone stale`): validation compared instance-type names only.  The command below — a zone-unrestricted
+replacement, re-simulated claim pinned to `z2` — was accepted; it is rejected now (`corpus/c06.validate/001-…` replays the
+cluster on the real code). -/
 
 def staleCmdReqs : Reqs := []
-def staleResim : Sim :=
-  { allScheduled := true,
-    claims := [{ reqs := [(zoneKey, { key := zoneKey, complement := false, values := ["z2"] })], its := [small, big] }] }
+def zoneIn (zs : List String) : String × Req := (zoneKey, { key := zoneKey, complement := false, values := zs })
+def ctIn (cts : List String) : String × Req := (ctKey, { key := ctKey, complement := false, values := cts })
+def staleResim : Sim := { allScheduled := true, claims := [{ reqs := [zoneIn ["z2"]], its := [small, big] }] }
 
-theorem C06_validate_ignores_requirements :
-    validateCommand (some ["small"]) staleResim = true ∧
-    ∃ c o, staleResim.claims = [c] ∧ o ∈ small.offerings ∧ o.available = true ∧
-      offeringCompat "rid" staleCmdReqs o = true ∧ offeringCompat "rid" c.reqs o = false := by
-  refine ⟨by decide, _, ofr "z1" "spot" 100, rfl, by decide, by decide, by decide, by decide⟩
+/-- the stale command is rejected; the launch that made it wrong (`small` in `z1`) is exactly what the new conjunct sees -/
+theorem C06_validate_rejects_stale_requirements :
+    validateCommand (some (staleCmdReqs, ["small"])) staleResim = false ∧
+    namesSubset ["small"] ["small", "big"] = true ∧
+    ∃ o, o ∈ small.offerings ∧ o.available = true ∧
+      offeringCompat "rid" staleCmdReqs o = true ∧ offeringCompat "rid" [zoneIn ["z2"]] o = false := by
+  refine ⟨by decide, by decide, ofr "z1" "spot" 100, by decide, by decide, by decide, by decide⟩
+
+/-- non-vacuity of `C06_validate_requirements`: a command pinned to spot in `z2` (what `computeConsolidation` leaves after
+    its spot pin) against a re-simulated claim that still allows spot and on-demand in `z2`/`z3` is accepted and meets
+    `lenExact`; so is a claim pinned to its reservation -/
+example : validateCommand (some ([zoneIn ["z2"], ctIn ["spot"]], ["small"]))
+      { allScheduled := true, claims := [{ reqs := [zoneIn ["z2", "z3"], ctIn ["spot", "on-demand"]], its := [small, big] }] } = true ∧
+    lenExact "rid" [zoneIn ["z2"], ctIn ["spot"]] [zoneIn ["z2", "z3"], ctIn ["spot", "on-demand"]] = true := by decide
+example :
+    let pinned : Reqs := [ctIn ["reserved"], ("rid", { key := "rid", complement := false, values := ["r-1"] })]
+    validateCommand (some (pinned, ["small"])) { allScheduled := true, claims := [{ reqs := pinned, its := [small] }] } = true ∧
+    lenExact "rid" pinned pinned = true := by decide
+/-- … and the converse direction is rejected: a command that still allows on-demand against a re-simulated claim that
+    needs spot -/
+example : validateCommand (some ([ctIn ["spot", "on-demand"]], ["small"]))
+      { allScheduled := true, claims := [{ reqs := [ctIn ["spot"]], its := [small, big] }] } = false := by decide
+
+/-- **the size test is inexact for numeric bounds**: `zone Gt 3` against a re-simulated `zone Gt 5` — both are complement
+    sets excluding nothing, `Len` is `MaxInt64` on both sides of the comparison, validation accepts, and the command
+    permits a launch in zone "4" that the re-simulated claim does not -/
+theorem C06_len_test_inexact_for_bounds :
+    let gt (n : Int) : String × Req := (zoneKey, { key := zoneKey, complement := true, values := [], gte := some (n + 1) })
+    let re : Sim := { allScheduled := true, claims := [{ reqs := [gt 5], its := [small] }] }
+    validateCommand (some ([gt 3], ["small"])) re = true ∧
+    lenExact "rid" [gt 3] [gt 5] = false ∧
+    offeringCompat "rid" [gt 3] (ofr "4" "spot" 1) = true ∧ offeringCompat "rid" [gt 5] (ofr "4" "spot" 1) = false := by
+  decide
+
+/-- **the size test does not see absence**: `Get` reads an undefined key as `Exists`, so a command that says nothing about
+    the reservation id passes against a re-simulated claim that REQUIRES one (`rid Exists`), although only the command
+    permits a launch without a reservation; likewise the empty set (`rid DoesNotExist`) is a subset of `rid In [r-1]` -/
+theorem C06_len_test_ignores_absence :
+    let ridExists : Reqs := [("rid", { key := "rid", complement := true, values := [] })]
+    let ridNone : Reqs := [("rid", { key := "rid", complement := false, values := [] })]
+    let ridIn : Reqs := [("rid", { key := "rid", complement := false, values := ["r-1"] })]
+    (validateCommand (some ([], ["small"])) { allScheduled := true, claims := [{ reqs := ridExists, its := [small] }] } = true ∧
+     lenExact "rid" [] ridExists = false ∧
+     offeringCompat "rid" [] (ofr "z1" "spot" 100) = true ∧ offeringCompat "rid" ridExists (ofr "z1" "spot" 100) = false) ∧
+    (validateCommand (some (ridNone, ["small"])) { allScheduled := true, claims := [{ reqs := ridIn, its := [small] }] } = true ∧
+     lenExact "rid" ridNone ridIn = false ∧
+     offeringCompat "rid" ridNone (ofr "z1" "spot" 100) = true ∧ offeringCompat "rid" ridIn (ofr "z1" "spot" 100) = false) := by
+  decide
 
 /-! ## The scheduler's reserved pin (discharges `ClaimHyps.pinned`) -/
 
